@@ -112,7 +112,7 @@ PROPS = {
                      "by operations on other handles, and after destroying every handle both tables are back to their initial "
                      "sizes; ASan reports use-after-free / double free; non-trivial = at least one apply in the history",
                 assumptions=PROOF_ASSUME),
-    "C13": dict(level="proof", kinds=[("parse", 24), ("parse2", 4), ("nfah_ops", 2), ("bddh", 1), ("glue", 1), ("nfas", 1), ("bddload", 1)], n=dict(quick=14400, thorough=200000, search=13000),
+    "C13": dict(level="proof", kinds=[("parse", 24), ("parse2", 4), ("ownalpha", 2), ("nfah_ops", 2), ("bddh", 1), ("glue", 1), ("nfas", 1), ("bddload", 1)], n=dict(quick=14400, thorough=200000, search=13000),
                 rule="texts: valid files with adversarial names, ranked tree automata, word automata, byte- and token-level "
                      "mutations of them, keyword soups, random bytes (incl. NUL, 0x80, 0xff, VT, FF, CR), shipped small files and "
                      "their mutations; TimbukParser::ParseString is compared with the model parser (accept / throw, the whole "
